@@ -77,10 +77,10 @@ def cRecvChan : Nat := 9
 structure St where
   objs : List TypeObj
   cache : List (CKey × Nat)
-  /-- `type.implementedBy[valueTypeString]` of every interface type object: key (iface id, string) -/
-  implementedBy : List ((Nat × Str) × Bool) := []
-  /-- `type.missingMethodFor[valueTypeString]` -/
-  missingMethodFor : List ((Nat × Str) × Str) := []
+  /-- `type.implementedBy[value.constructor.id]` of every interface type object: key (iface id, dynamic type id) -/
+  implementedBy : List ((Nat × Nat) × Bool) := []
+  /-- `type.missingMethodFor[value.constructor.id]` -/
+  missingMethodFor : List ((Nat × Nat) × Str) := []
 deriving Repr
 
 def dflt : TypeObj := { kind := 0, str := [], named := false, pkg := [] }
@@ -115,9 +115,24 @@ def ifaceKey (ms : List Method) : Str :=
   joinSep '$' (ms.map fun m => m.pkg ++ ',' :: (m.name ++ ',' :: dec m.typ))
 /-- types.js:617 -/
 def mapKey (k e : Nat) : Str := dec k ++ '$' :: dec e
-/-- types.js:695 `f.name + "," + f.typ.id + "," + f.tag` joined by "$" — no `embedded`, no `pkgPath` -/
-def structKey (fs : List Field) : Str :=
+/-- the cache key of `$structType` BEFORE the repair (`f.name + "," + f.typ.id + "," + f.tag` joined by "$":
+    no `embedded`, no `pkgPath`, separators not escaped); kept only for the "repaired defects" section of the proofs -/
+def structKeyOld (fs : List Field) : Str :=
   joinSep '$' (fs.map fun f => f.name ++ ',' :: (dec f.typ ++ ',' :: f.tag))
+
+/-- `$structKeyString`: `s.length + ":" + s` -/
+def lenStr (x : Str) : Str := dec x.length ++ ':' :: x
+
+/-- one field's part of the `$structType` key:
+    `$structKeyString(f.name) + f.typ.id + (f.embedded ? "E" : "e") + (f.exported ? "X" : "x") + $structKeyString(f.tag)` -/
+def fieldKey (f : Field) : Str :=
+  lenStr f.name ++ (dec f.typ ++ (if f.embedded then 'E' else 'e') :: (if f.exported then 'X' else 'x') :: lenStr f.tag)
+
+/-- `keyPkg`: the package path takes part in the key exactly when some field is not exported -/
+def keyPkg (pkgPath : Str) (fs : List Field) : Str := if fs.any (fun f => !f.exported) then pkgPath else []
+
+/-- the `$structType` cache key: `$structKeyString(keyPkg) + fields.map(fieldKey).join("")` -/
+def structKey (pkgPath : Str) (fs : List Field) : Str := lenStr (keyPkg pkgPath fs) ++ (fs.map fieldKey).flatten
 
 /-- a call of one of the canonicalising constructors on already canonical component types -/
 inductive Ctor
@@ -140,7 +155,7 @@ def ckey : Ctor → CKey
   | .map k e => (cMap, mapKey k e)
   | .ptr e => (cPtr, dec e)
   | .slice e => (cSlice, dec e)
-  | .struct _ fs => (cStruct, structKey fs)
+  | .struct p fs => (cStruct, structKey p fs)
 
 def kindOf : Ctor → Nat
   | .array .. => kArray | .chan .. => kChan | .func .. => kFunc | .iface .. => kInterface
@@ -203,16 +218,14 @@ def newType (s : St) (kind : Nat) (str : Str) (named : Bool) (pkg : Str) : St ×
 
 /-- `typ.init(...)` for each kind (types.js:143-166,173-177,183-188,194-199,205-209,220-224,238-244,254-316) -/
 def initType (s : St) (id : Nat) : Ctor → St
-  | .array e n => s.modify id fun o => { o with elem := e, len := n, comparable := (s.get e).comparable }
+  | .array e n => s.modify id fun o => { o with elem := e, len := n }
   | .chan e so ro => s.modify id fun o => { o with elem := e, sendOnly := so, recvOnly := ro }
   | .func ps rs v => s.modify id fun o => { o with params := ps, results := rs, variadic := v, comparable := false }
   | .iface ms => s.modify id fun o => { o with methods := ms }
   | .map k e => s.modify id fun o => { o with key := k, elem := e, comparable := false }
   | .ptr e => s.modify id fun o => { o with elem := e }
   | .slice e => s.modify id fun o => { o with elem := e, comparable := false }
-  | .struct pp fs => s.modify id fun o =>
-      { o with pkgPath := pp, fields := fs,
-               comparable := if fs.all (fun f => (s.get f.typ).comparable) then o.comparable else false }
+  | .struct pp fs => s.modify id fun o => { o with pkgPath := pp, fields := fs }
 
 /-- `$arrayType`, `$chanType`, `$funcType`, `$interfaceType`, `$mapType`, `$ptrType`, `$sliceType`, `$structType`
     (types.js:529-724): look the key up, otherwise `$newType`, store, `init`. -/
@@ -233,12 +246,6 @@ structure Ent where
   indirect : Bool
 deriving DecidableEq, Repr
 
-/-- own properties every JS object inherits from `Object.prototype`: `base[m.name] === undefined` is false for
-    these names although nothing was stored (types.js:413,460) -/
-def protoProps : List Str :=
-  ["constructor", "__defineGetter__", "__defineSetter__", "hasOwnProperty", "__lookupGetter__", "__lookupSetter__",
-   "isPrototypeOf", "propertyIsEnumerable", "toString", "valueOf", "__proto__", "toLocaleString"].map String.toList
-
 /-- `$ptrType(e.typ).methods` without creating the pointer type (a fresh pointer type has no methods) -/
 def ptrMethods (s : St) (t : Nat) : List Method :=
   match s.cache.lookup (cPtr, dec t) with
@@ -246,7 +253,7 @@ def ptrMethods (s : St) (t : Nat) : List Method :=
   | none => []
 
 structure LevelAcc where
-  seen : List Str
+  seen : List Nat
   mset : List Method
   next : List Ent
   allocs : List Nat
@@ -254,8 +261,8 @@ structure LevelAcc where
 /-- body of `current.forEach(e => …)` (types.js:429-457) -/
 def msVisit (s : St) (a : LevelAcc) (e : Ent) : LevelAcc :=
   let o := s.get e.typ
-  if a.seen.contains o.str then a else
-    let a := { a with seen := o.str :: a.seen }
+  if a.seen.contains e.typ then a else
+    let a := { a with seen := e.typ :: a.seen }
     let a :=
       if o.named then
         let a := { a with mset := a.mset ++ o.methods }
@@ -274,11 +281,11 @@ def msVisit (s : St) (a : LevelAcc) (e : Ent) : LevelAcc :=
 
 /-- `mset.forEach(m => { if (base[m.name] === undefined) base[m.name] = m; })` (types.js:459-463) -/
 def addBase (base : List Method) (mset : List Method) : List Method :=
-  mset.foldl (fun b m => if protoProps.contains m.name ∨ b.any (fun x => x.name == m.name) then b else b ++ [m]) base
+  mset.foldl (fun b m => if b.any (fun x => x.name == m.name) then b else b ++ [m]) base
 
 /-- the `while (current.length > 0)` loop; `fuel` bounds the number of levels (every level with a non-empty
     successor marks a new type string as seen, so `size + 1` levels suffice) -/
-def msLoop (s : St) : Nat → List Ent → List Str → List Method → List Nat → List Method × List Nat
+def msLoop (s : St) : Nat → List Ent → List Nat → List Method → List Nat → List Method × List Nat
   | 0, _, _, base, al => (base, al)
   | _ + 1, [], _, base, al => (base, al)
   | f + 1, cur, seen, base, al =>
@@ -289,7 +296,7 @@ def msLoop (s : St) : Nat → List Ent → List Str → List Method → List Nat
     whose pointer type `$ptrType(e.typ)` gets created on the way (types.js:438) -/
 def methodSetAux (s : St) (t : Nat) : List Method × List Nat :=
   let o := s.get t
-  let isPtr := o.kind = kPtr
+  let isPtr := o.kind = kPtr ∧ o.named = false
   if isPtr ∧ (s.get o.elem).kind = kInterface then ([], [])
   else msLoop s (s.size + 1) [⟨if isPtr then o.elem else t, isPtr⟩] [] [] []
 
@@ -315,7 +322,7 @@ def assertType (s : St) (dyn : Option Nat) (t : Nat) : St × (Bool × Str) :=
   | some v =>
     if (s.get t).kind ≠ kInterface then (s, (v == t, []))
     else
-      let vs := (s.get v).str
+      let vs := v          -- `value.constructor.id`
       match s.implementedBy.lookup (t, vs) with
       | some ok => (s, (ok, if ok then [] else (s.missingMethodFor.lookup (t, vs)).getD []))
       | none =>
@@ -360,6 +367,17 @@ inductive Val
   | iface (typ : Nat) (v : Val)   -- `new T(v)` : constructor + $val
 deriving Repr
 
+/-- `typ.comparable`: a stored flag for every kind except arrays and structs, where it is the getter
+    `elem.comparable` / `fields.every(f => f.typ.comparable)` (types.js init of kindArray / kindStruct).
+    `fuel` bounds the nesting depth (a type cannot contain itself by value). -/
+def comparableM (s : St) : Nat → Nat → Bool
+  | 0, _ => true
+  | f + 1, t =>
+    let o := s.get t
+    if o.kind = kArray then comparableM s f o.elem
+    else if o.kind = kStruct then o.fields.all fun fl => comparableM s f fl.typ
+    else o.comparable
+
 inductive EqRes | tt | ff | panic
 deriving DecidableEq, Repr
 
@@ -376,7 +394,7 @@ def valEqual (s : St) : Val → Val → Nat → EqRes
   | .ifaceNil, .ifaceNil, _ => .tt
   | .iface ta va, .iface tb vb, _ =>
     if ta ≠ tb then .ff
-    else if !(s.get ta).comparable then .panic
+    else if !comparableM s (s.size + 1) ta then .panic
     else valEqual s va vb ta
   | .num a, .num b, _ => .ofBool (a == b)
   | .pair a b, .pair c d, _ => .ofBool (a == c && b == d)
